@@ -56,6 +56,7 @@ type sessCfg struct {
 	Renom      bool                   `json:"renom"`
 	PreRestart bool                   `json:"preRestart"`
 	NomBase    uint32                 `json:"nomBase"`
+	NomStep    uint32                 `json:"nomStep"`
 	Lite       map[string]bool        `json:"lite"`
 	CheckPrio  map[string]bool        `json:"checkPrio"`
 	Walk       walkCfg                `json:"walk"`
@@ -339,7 +340,19 @@ func runSession(t *testing.T, cfg *sessCfg, job *sessJob, rng *mrand.Rand, sched
 			ice.WithPrflxAcceptanceMinWait(ms(acc["prflx"])), ice.WithRelayAcceptanceMinWait(ms(acc["relay"])),
 		}
 		if cfg.Renom {
-			opts = append(opts, ice.WithRenomination(func() uint32 { S[n].nomCtr++; return S[n].nomCtr }))
+			step := cfg.NomStep
+			if step == 0 {
+				step = 1
+			}
+			opts = append(opts, ice.WithRenomination(func() uint32 {
+				if S[n].nomCtr == cfg.NomBase {
+					S[n].nomCtr++ // first value: base + 1, then steps of NomStep
+				} else {
+					S[n].nomCtr += step
+				}
+
+				return S[n].nomCtr
+			}))
 		}
 		if cfg.Lite[n] {
 			opts = append(opts, ice.WithICELite(true))
